@@ -3,6 +3,7 @@ import EaselModel.Sqio.Tracker
 import EaselModel.Sqio.DriverLogic
 import EaselModel.Sqio.Agree
 import EaselModel.Sqio.Refine
+import EaselModel.Sqio.Spec
 /-! # C04 — all ways of reading a sequence file agree with each other and with the file
 
 Property theorems only (proofs are glue on `Sqio/Windows.lean`, `Sqio/Refine.lean`, `Sqio/Spec.lean`).
@@ -75,6 +76,14 @@ theorem nextchar_block_size_independent_partial (a : Ascii) (c : UInt8) (h : Ref
   rcases (Refine.nextchar_refines a c h hb).2.2.2 with h1 | h1
   · exact Or.inl ⟨h1.1, h1.2.2.1, h1.2.2.2⟩
   · exact Or.inr ⟨h1.1, h1.2.2.1⟩
+
+/-- **Write + re-read, residue level**: the data lines `esl_sqascii_WriteFasta` writes (60 residues per line), with the newlines
+    taken out again, are exactly the residues - for every sequence not containing a newline byte, of any length.
+    `write_read_roundtrip_partial`: that the reader then returns them (and name / description) is tied by the `roundtrip` op of the
+    differential run (model bytes = implementation bytes, re-read records = original records). -/
+theorem writeFasta_keeps_residues_partial (res : List UInt8) (hnl : ∀ x ∈ res, x ≠ chNl) :
+    (chunk60 res (res.length + 1)).filter (fun x => x != chNl) = res :=
+  Spec.chunk60_filter (res.length + 1) res (Nat.lt_succ_self _) hnl
 
 /-- non-vacuity: windows of W = 5, C = 2 over a 12-residue sequence: 1..5, 4..10, 9..12 (as the real reader returns) -/
 example : fwdNext (fwdFirst 5) 2 5 5 = ⟨4, 10, 2, 7⟩ ∧ fwdNext ⟨4, 10, 2, 7⟩ 2 10 2 = ⟨9, 12, 2, 4⟩ := by decide
